@@ -1944,7 +1944,7 @@ class LinearDensity(Quantity['LinearDensity']):
               '/yd': 1.0936132983377076, '/mi': 6.21371192237334E-4,
               '/NM': 5.399568034557236E-4, '/AU': 6.684587122268445E-12,
               '/ly': 1.0570008340246154E-16, '/pc': 5.124484652793234E-22,
-              '/Å': 1.0E-10, '/A': 1.0E-10}
+              '/Å': 1.0E10, '/A': 1.0E10}
     _displayunits = {'/mum': '/μm', '/A': '/Å'}
     _descriptions = {'/ym': 'per yoctometer', '/zm': 'per zeptometer',
                      '/am': 'per attometer', '/fm': 'per femtometer',
